@@ -55,6 +55,12 @@ var ctxs = []ctx{
 	{"switchNoTagMulti", "switch {\ncase a > 100, a < b:\nBODY\ncase a == b, a == b+4:\nb++\ndefault:\na--\n}"},
 	{"switchInitCall", "switch x := a & 1; inc(&b) % 2 {\ncase 0:\nb += x\ncase 1:\nBODY\n}"},
 	{"switchTagMulti", "switch a % 4 {\ncase 0, 3:\nBODY\ncase 1, 2:\nb++\n}"},
+	// third generation: fallthrough into a case whose test does not hold / out of a default that is not last, range over a
+	// string with invalid UTF-8
+	{"switchFallCase", "switch a % 3 {\ncase 0:\nb++\nfallthrough\ncase 1:\nBODY\ncase 2:\nb += 2\nfallthrough\ncase 7:\na++\ndefault:\nb--\n}"},
+	{"switchDefMiddleFall", "switch a % 4 {\ncase 0:\nb++\ndefault:\nBODY\nfallthrough\ncase 1:\na++\n}"},
+	{"switchFallChain", "switch {\ncase a > b:\na--\nfallthrough\ncase a > 100:\nb += 3\nfallthrough\ncase a < -100:\nBODY\ndefault:\nb -= 2\n}"},
+	{"rangeStrBad", "for i, c := range \"a\\xffb\" {\nb += i + int(c)%5\nBODY\n}"},
 	{"captureLocal", "{\nvar ps []*[2]int\nvar fl []func() int\nfor i := 0; i < 2; i++ {\nloc := [2]int{i, a}\nsl := []int{i}\nps = append(ps, &loc)\nfl = append(fl, func() int { return sl[0] + loc[0] })\nBODY\n}\nfor k, pp := range ps {\nb += pp[0] + fl[k]()\n}\n}"},
 	{"namedSwap", "a, b = func() (nx, ny int) {\nnx, ny = a, b\nBODY\nreturn ny, nx\n}()"},
 	{"resultAlias", "a = func() (res int) {\nres = 50\nb += a\nBODY\nreturn res + 1\n}()"},
@@ -116,6 +122,9 @@ func init() {
 		{"r = func() (res R) {\nres.N = r.N + 1\nres.A[0] = r.A[1]\nreturn\n}()", "", false},
 		{"pa := [2]R{{N: 1}, {N: 2}}\nfor i, v := range pa {\npa[1].N = a + i\nb += v.N\n}", "pa", false},
 		{"a, b = func() (x, y int) {\nx, y = a, b\nreturn y, x\n}()", "", true},
+		// third generation: := with a composite literal first and a plain value second, parallel assignment through calls
+		{"c2, k2 := R{N: a}, b\nb = c2.N + k2", "c2 k2", true}, {"a, b = two(b), two(a)", "", true}, {"a, b = b, two(a)", "", false},
+		{"r, b = R{N: b}, r.N", "", false}, {"a, b = func() (x, y int) {\nx, y = a, b\nreturn x + y, x - y\n}()", "", false},
 		// the empty payload: a program "a C/_ = a" fails exactly when the context C alone misbehaves
 		{"_ = a", "", true},
 	}
